@@ -285,6 +285,23 @@ Theorem id_counter_is_moved_by_put_only :
 Proof. exact counter_written_by_put_only. Qed.
 Print Assumptions id_counter_is_moved_by_put_only.
 
+(** What the chain ASKS validators to sign: every `BytesToSign:` the consensus module fills in (the
+    signing query's queuedMessageToMessageToSign, ToMessageWithSignatures behind the other queries)
+    is GetBytesToSign of the message handed in -- no memo; and the keeper has no field or
+    package-level variable that could hold one. *)
+Theorem served_signbytes_are_those_of_the_stored_message :
+  Forall (fun p => snd p = "msg.GetBytesToSign"%string) Gen.C05.bytes_to_sign_sites /\
+  map fst Gen.C05.bytes_to_sign_sites = ["ToMessageWithSignatures"; "queuedMessageToMessageToSign"]%string /\
+  map fst Gen.C05.consensus_keeper_fields =
+    ["cdc"; "storeKey"; "paramstore"; "ider"; "valset"; "registry"; "evmKeeper"; "consensusChecker"; "feeProvider";
+     "onMessageAttestedListeners"]%string /\
+  map snd Gen.C05.consensus_keeper_fields =
+    ["codec.Codec"; "store.KVStoreService"; "paramtypes.Subspace"; "keeperutil.IDGenerator"; "types.ValsetKeeper"; "*registry";
+     "types.EvmKeeper"; "*libcons.ConsensusChecker"; "FeeProvider"; "[]metrixtypes.OnConsensusMessageAttestedListener"]%string /\
+  Gen.C05.consensus_package_level_maps = 0.
+Proof. exact served_signbytes_are_recomputed. Qed.
+Print Assumptions served_signbytes_are_those_of_the_stored_message.
+
 Theorem batch_queue_model_is_of_current_source :
   Gen.C05.batch_id_counter_key_expr = "consensusBatchQueueIDCounterKey"%string /\
   Gen.C05.id_counter_keys_distinct = true /\ Gen.C05.batch_put_stages_only = true /\
